@@ -20,9 +20,9 @@ import (
 //       the sender body run after every event), with the observer's oracle on, and
 //   (L) through the really started collector: Start(), AddSpan through the incoming channel, the workers'
 //       own fake-clock tickers, MockConfig.Reload → monitor goroutine → worker reload case, a sendEarly
-//       request as checkAlloc posts it, the sendTraces goroutine, and finally the real Stop() —
-// and the two must agree on: the buffered traces and their spans, the remembered decision of every trace
-// ID, and the multiset of (trace, span, sample rate) handed to the transmission.
+//       request as checkAlloc posts it, and the sendTraces goroutine (awaited by a sentinel barrier) —
+// and the two must agree, AFTER EVERY EVENT, on: the buffered traces with their spans and SendBy instants, the
+// remembered decision of every trace ID, the send-reason counters; and at the end on and the multiset of (trace, span, sample rate) handed to the transmission.
 
 type loopResult struct {
 	hist string
@@ -45,16 +45,22 @@ func (s *Scenario) loopAlphabet() []Ev {
 	if len(s.Samplers) > 1 {
 		out = append(out, Ev{Op: "reload"})
 	}
-	for w := 0; w < s.Workers; w++ {
+	for w := 0; w < s.Workers && !s.LoopNoEject; w++ {
 		out = append(out, Ev{Op: "eject", W: w, B: -1})
 	}
 	return out
 }
 
-func (s *Scenario) loopTick() time.Duration { return time.Duration(s.Traces.SendDelay) }
+func (s *Scenario) loopTick() time.Duration {
+	if s.LoopTick > 0 {
+		return s.LoopTick
+	}
+	return time.Duration(s.Traces.SendDelay)
+}
 
 func snapshotState(f *fx.Fixture, ids []string) string {
 	var b strings.Builder
+	fmt.Fprintf(&b, "@+%v: ", f.Now().Sub(fx.T0))
 	for _, v := range f.BufferedAll() {
 		sp := append([]string{}, v.Spans...)
 		sort.Strings(sp)
@@ -63,6 +69,17 @@ func snapshotState(f *fx.Fixture, ids []string) string {
 	for _, id := range ids {
 		d := f.Remembered(id)
 		fmt.Fprintf(&b, "dec %s kept=%v dropped=%v; ", id, d.Kept, d.Dropped())
+	}
+	rc := f.SendReasonCounters()
+	var names []string
+	for n := range rc {
+		names = append(names, n)
+	}
+	sort.Strings(names)
+	for _, n := range names {
+		if rc[n] != 0 {
+			fmt.Fprintf(&b, "%s=%d ", n, rc[n])
+		}
 	}
 	return b.String()
 }
@@ -85,8 +102,8 @@ func (s *Scenario) runHandlerTwin(h []Ev) (state string, tx []string, findings [
 			run.Step(e)
 		}
 		drain()
+		state += snapshotState(run.F, s.IDs) + "\n"
 	}
-	state = snapshotState(run.F, s.IDs)
 	tx = run.F.Tx.Multiset(0)
 	findings = run.Findings
 	run.F.Close()
@@ -121,11 +138,13 @@ func (s *Scenario) runLoop(h []Ev) (state string, tx []string) {
 		case "eject":
 			f.EjectLoop(e.W, 1<<40)
 		}
+		f.QuiesceAll()
+		state += snapshotState(f, s.IDs) + "\n"
 	}
 	f.QuiesceAll()
-	state = snapshotState(f, s.IDs)
-	f.Close() // real Stop(): joins workers and the sender
-	tx = f.Tx.Multiset(0)
+	f.SenderIdle()
+	tx = f.Tx.Multiset(0) // taken BEFORE Stop(): what shutdown does with still-buffered traces is C36's subject
+	f.Close()
 	return
 }
 
@@ -161,9 +180,9 @@ func (s *Scenario) LoopConformance(r *ev.Run, prefix string, depth int) int {
 				var lr *loopResult
 				switch {
 				case hState != lState:
-					lr = &loopResult{sig: prefix + "loop-conformance:state", what: fmt.Sprintf("after %s the started collector holds [%s] but the handlers hold [%s]", HistString(h), lState, hState)}
+					lr = &loopResult{sig: prefix + "loop-conformance:state", what: fmt.Sprintf("after %s the started collector went through states\n%s but the handlers through\n%s", HistString(h), lState, hState)}
 				case strings.Join(hTx, ",") != strings.Join(lTx, ","):
-					lr = &loopResult{sig: prefix + "loop-conformance:transmitted", what: fmt.Sprintf("after %s the started collector (run to Stop) transmitted %v, the handlers %v", HistString(h), lTx, hTx)}
+					lr = &loopResult{sig: prefix + "loop-conformance:transmitted", what: fmt.Sprintf("after %s the started collector transmitted %v, the handlers %v", HistString(h), lTx, hTx)}
 				}
 				for _, f := range finds {
 					if lr == nil && strings.HasPrefix(f.Class, prefix) {
